@@ -234,7 +234,9 @@ pub fn run(ctx: &Ctx) -> (CheckMeta, Acc) {
             }
         }
         if ctx.replay.as_ref().map(|r| r.history >= 1_000_000_000).unwrap_or(true) {
-            crate::mon::pools::run_histories(ctx, sh, acc, n_hist, steps, "C03", Kind::Stable);
+            if !ctx.pure_only {
+                crate::mon::pools::run_histories(ctx, sh, acc, n_hist, steps, "C03", Kind::Stable);
+            }
         }
     });
     let meta = CheckMeta {
